@@ -254,7 +254,7 @@ func (c02) Run(t *tape.Tape, tier Tier) *Result {
 					res.add(Violation{Prop: "C02", Oracle: "both-transferred-at-unknowing", Culprit: refCulprit(refs[idx]) + ":" + string(row0[idx]) + "->" + string(got),
 						Expected: fmt.Sprintf("%c; e=%q r=%q", row0[idx], txt(e0), txt(refErrs[idx])),
 						Observed: fmt.Sprintf("%c; e=%q r=%q", got, txt(he.err), txt(hr.err)),
-						Where: fmt.Sprintf("process %d (%s) holds e and ref[%s], both via %s", d.Proc.ID, d.Proc.Prof.Name, refs[idx].Name, he.path)})
+						Where:    fmt.Sprintf("process %d (%s) holds e and ref[%s], both via %s", d.Proc.ID, d.Proc.Prof.Name, refs[idx].Name, he.path)})
 				}
 			}
 			return
